@@ -16,7 +16,7 @@ Record prog_case := {
 (** driver (c): a history of messages; [mc_hdrs] = the header of every message as the driver built
     it (sender = its row index, nonce, gas limit, price, value, what IntrinsicGas looks at, the gas
     Nibiru reported), with the nonce bracket of ApplyEvmMsg as the only known StateDB calls *)
-Record msgs_case := { mc_trace : msgs_trace; mc_hdrs : list msg }.
+Record msgs_case := { mc_trace : msgs_trace; mc_hdrs : list (msg * Z) }.  (* header, sender balance SET before the message (-1: untouched) *)
 
 Inductive case : Type := CSeq (t : trace) | CProg (p : prog_case) | CMsgs (m : msgs_case).
 
@@ -75,8 +75,9 @@ Definition mismatch_prog (p : prog_case) : bool :=
 (** ** driver (c): the message-layer model [deliver] against the observed history.  The block
     state before each message is rebuilt from the OBSERVED table (the interpreter is not modelled,
     so the effect of an executed message is not predicted), the pointer is threaded through the
-    history, and [clears_on_error] is the value extracted from the source.  Compared per message:
-    the verdict rejected / executed (ante: EOA, funds, nonce; ApplyEvmMsg: intrinsic gas); after a
+    history, and [clears_on_error] / [cap_check] are the values extracted from the source.  Compared per
+    message: the verdict rejected / executed (ante: EOA, tip vs fee cap vs base fee, funds against
+    gas*feeCap+value or the effective cost, nonce; ApplyEvmMsg: intrinsic gas); after a
     rejected message the whole table (no effect); after an executed message the sender's nonce. *)
 Definition nth_row (rows : list arow) (a : addr) : option arow :=
   if a <? 0 then None else nth_error rows (Z.to_nat a).
@@ -97,23 +98,34 @@ Definition row_nonce (rows : list arow) (a : addr) : Z :=
 
 Definition msg_keys : list key := [0; 1; 2; 3].
 
-Fixpoint model_msgs (clears : bool) (prev : list arow) (ptr : option full) (hs : list msg)
+(** the driver funds the sender between two messages (balance placement around an admission limit) *)
+Fixpoint set_bal_at (i : nat) (rows : list arow) (b : Z) : list arow :=
+  match rows, i with
+  | [], _ => []
+  | (_, _, n, c, st) :: rest, O => (true, b, n, c, st) :: rest
+  | r :: rest, S j => r :: set_bal_at j rest b
+  end.
+
+Fixpoint model_msgs (clears cap_check floor_check : bool) (prev : list arow) (ptr : option full) (hs : list (msg * Z))
          (obs : list (prog_obs * prog_obs * bool)) : bool :=
   match hs, obs with
   | [], [] => true
-  | m :: hs', (n, _, _) :: obs' =>
+  | (m, placed) :: hs', (n, _, _) :: obs' =>
+    let prev := if placed <? 0 then prev else set_bal_at (Z.to_nat (m_from m)) prev placed in
     let as_ := map Z.of_nat (seq 0 (length prev)) in
-    let '(st1, r) := deliver clears {| ms_blk := keeper_of_rows prev; ms_ptr := ptr |} m in
+    let '(st1, r) := deliver clears cap_check floor_check {| ms_blk := keeper_of_rows prev; ms_ptr := ptr |} m in
     let rej := match r with MRejected => true | MExecuted _ => false end in
     Bool.eqb rej (p_rej n) &&
     (if rej then list_eqb row_eqb (table_of_keeper as_ msg_keys (ms_blk st1)) (p_state n)
      else row_nonce (table_of_keeper as_ msg_keys (ms_blk st1)) (m_from m) =? row_nonce (p_state n) (m_from m)) &&
-    model_msgs clears (p_state n) (ms_ptr st1) hs' obs'
+    model_msgs clears cap_check floor_check (p_state n) (ms_ptr st1) hs' obs'
   | _, _ => false
   end.
 
 Definition mismatch_msgs (c : msgs_case) : bool :=
   negb (model_msgs Nib.Gen.C03Facts.c03_ethereumtx_clears_on_every_return
+                   Nib.Gen.C03Facts.c03_sender_balance_checked_against_cap_cost
+                   Nib.Gen.C03Facts.c03_ante_rejects_fee_cap_below_base_fee
                    (mt_init_n (mc_trace c)) None (mc_hdrs c) (mt_msgs (mc_trace c))).
 
 Definition mismatch (c : case) : bool :=
@@ -134,9 +146,9 @@ Definition mk_pobs (rej : bool) (gas err : Z) (ret logs : list Z) (st : list aro
   {| p_rej := rej; p_gas := gas; p_err := err; p_ret := ret; p_logs := logs; p_state := st |}.
 Definition mk_prog (quot refund used_pre : Z) (n g : prog_obs) : case :=
   CProg {| pc_quot := quot; pc_refund := refund; pc_used_pre := used_pre; pc_nib := n; pc_geth := g |}.
-Definition mk_hdr (from nonce gas price value : Z) (create : bool) (nz z al_addrs al_keys used : Z) : msg :=
-  {| m_from := from; m_nonce := nonce; m_gas := gas; m_price := price; m_value := value;
+Definition mk_hdr (from nonce gas base tip cap value : Z) (create : bool) (nz z al_addrs al_keys used : Z) : msg :=
+  {| m_from := from; m_nonce := nonce; m_gas := gas; m_base := base; m_tip := tip; m_cap := cap; m_value := value;
      m_create := create; m_nz := nz; m_z := z; m_al_addrs := al_addrs; m_al_keys := al_keys;
      m_ops := [OSetNonce from nonce; OSetNonce from (nonce + 1)]; m_used := used |}.
-Definition mk_msgs (init_n init_g : list arow) (hdrs : list msg) (obs : list (prog_obs * prog_obs * bool)) : case :=
+Definition mk_msgs (init_n init_g : list arow) (hdrs : list (msg * Z)) (obs : list (prog_obs * prog_obs * bool)) : case :=
   CMsgs {| mc_trace := {| mt_init_n := init_n; mt_init_g := init_g; mt_msgs := obs |}; mc_hdrs := hdrs |}.
